@@ -1,12 +1,13 @@
 (* C10 runner: batches of histories judged like C01 cases, plus histories over one dictionary column
    compared with the dictionary builder model (string table, keys, values, placeholder handling,
    reset at every build). *)
-From Verif Require Export RunC01 DictBuilder.
+From Verif Require Export RunC01 DictBuilder UnionBuilder.
 Local Open Scope nat_scope.
 
 Inductive Case :=
 | CBatch (c : RunC01.Case)
-| CDict (key : IntKind) (val : BytesKind) (nullable : bool) (ops : list DOp) (impl : Outcome (list Arr)).
+| CDict (key : IntKind) (val : BytesKind) (nullable : bool) (ops : list DOp) (impl : Outcome (list Arr))
+| CUnion (variants : list Field) (ops : list UOp) (impl : Outcome (list Arr)).
 
 Definition corr (c : Case) : bool :=
   match c with
@@ -17,6 +18,17 @@ Definition corr (c : Case) : bool :=
     | Err, Err => true
     | Panic _, Panic _ => true
     | _, _ => false
+    end
+  | CUnion fs ops impl =>
+    match union_of fs with
+    | None => true
+    | Some u0 =>
+      match union_history u0 ops, impl with
+      | Ok a, Ok i => list_eqb arr_eqb a i
+      | Err, Err => true
+      | Panic _, Panic _ => true
+      | _, _ => false
+      end
     end
   end.
 
@@ -44,7 +56,13 @@ Definition oracle (c : Case) : bool :=
     | Err => true
     | Panic _ => false
     end
+  | CUnion fs ops impl =>
+    match impl with
+    | Ok arrs => batches_ok (mkField (b "c") (DUnion (combine (map Z.of_nat (seq 0 (length fs))) fs)) false) (union_batches [] ops) arrs
+    | Err => true
+    | Panic _ => false
+    end
   end.
 Definition info (cs : list Case) : list N :=
-  [N.of_nat (length (filter (fun c => match c with CBatch s => RunC01.modelled s | CDict _ _ _ _ _ => true end) cs));
-   N.of_nat (length (filter (fun c => match c with CDict _ _ _ _ _ => true | _ => false end) cs))].
+  [N.of_nat (length (filter (fun c => match c with CBatch s => RunC01.modelled s | CDict _ _ _ _ _ => true | CUnion _ _ _ => true end) cs));
+   N.of_nat (length (filter (fun c => match c with CDict _ _ _ _ _ => true | CUnion _ _ _ => true | _ => false end) cs))].
